@@ -350,7 +350,8 @@ def evaluate(run, props):
     so.find_seated(an)
     lin_ok, lin_order = admission_linearizable(an.views)
     expect, seats = admission_model(an.views, lin_order if lin_ok else None)
-    teams = {'NS': seats['N'] or '?', 'EW': seats['E'] or '?'}
+    teams = {'NS': '?' if seats['N'] is None else seats['N'],
+             'EW': '?' if seats['E'] is None else seats['E']}
     run.scn = dict(run.scn)
     run.scn['teams'] = teams
     so.derive_decisions(an)
